@@ -384,6 +384,18 @@ Proof.
   destruct ev; cbn in *; [exact Hno | contradiction].
 Qed.
 
+(* after x = e the name x holds the value e had *)
+Lemma assign_then_use_lemma : forall fire f x e sc st s1 v,
+  eval fire f (EAssign x e) sc st = (s1, Good v) -> get_var x (s_vars s1) = Some v.
+Proof.
+  intros fire f x e sc st s1 v H. destruct f as [|f]; [discriminate|].
+  rewrite eval_S in H. unfold mbind in H.
+  destruct (tick fire st) as [s0 [[]|e0]]; [|discriminate].
+  cbn [Calc.eval_node] in H. unfold mbind in H.
+  destruct (eval fire f e sc s0) as [s2 [v2|e2]]; [|discriminate].
+  cbn in H. inversion H; subst. cbn [s_vars apply_event]. apply get_set_same.
+Qed.
+
 (* on success _ and ans hold the value just computed *)
 Lemma ans_on_success_lemma : forall fire f e st s v,
   eval_top fire f e st = (s, Good v) ->
